@@ -67,6 +67,9 @@ def env_for(run_seed: int, label: str, rnd: random.Random, default: bool = False
         "locale": "C" if rnd.random() < 0.25 else None,
         # clock skew / jump between runs (seconds): another day, another year, the past
         "clock_offset": rnd.choice([0, 0, 86400 * 3, 86400 * 400, -86400 * 30, 3600 * 11]),
+        # python -O / -OO (asserts and docstrings stripped), and how the directories are spelled
+        "optimize": rnd.choice([0, 0, 0, 1, 2]),
+        "path_style": rnd.choice(["abs", "abs", "rel", "slash", "dotdot"]),
     }
 
 
@@ -104,6 +107,20 @@ def run_generator(
         core.GUARD: "1",
         "LSPV_CONF": str(conf),
     })
+    if env.get("optimize"):
+        e["PYTHONOPTIMIZE"] = str(env["optimize"])
+    style = env.get("path_style") or "abs"
+
+    def spell(pth: Optional[str]) -> Optional[str]:
+        if pth is None or style == "abs":
+            return pth
+        if style == "rel":
+            return os.path.relpath(pth, str(repo))
+        if style == "slash":
+            return pth.rstrip("/") + "/"
+        return os.path.join(os.path.dirname(pth), "..", os.path.basename(os.path.dirname(pth)), os.path.basename(pth))  # a/b -> a/../a/b
+
+    out_dir, test_dir = spell(out_dir), spell(test_dir)
     if env.get("locale") == "C":
         for k_ in [k_ for k_ in e if k_.startswith("LC_") or k_ in ("LANG", "LANGUAGE")]:
             del e[k_]
